@@ -25,7 +25,7 @@ import re
 import shutil
 
 from ..core import cli, codebase, env, par, shrink
-from ..core.result import Failure, Report
+from ..core.result import Failure, Report, robust
 from ..ref import cpp
 
 ID = "C18"
@@ -223,9 +223,13 @@ def _work(arg):
         def cands(fs):
             for i in range(len(fs)):
                 yield fs[:i] + fs[i + 1:]
-        w = shrink.minimize(tuple(faults), cands, fl)
-        b = [x for x in judge(root, list(w), with_cli) if x[0] == kind][0]
-        f = Failure(kind, {"faults": list(w)}, expected=b[1], observed=b[2])
+        def mk():
+            if not fl(tuple(faults)):
+                return None
+            w = shrink.minimize(tuple(faults), cands, fl)
+            b = [x for x in judge(root, list(w), with_cli) if x[0] == kind][0]
+            return Failure(kind, {"faults": list(w)}, expected=b[1], observed=b[2])
+        f = robust(mk, {"faults": list(faults)})
         if f.key() not in seen:
             seen.add(f.key())
             out.append(f)
